@@ -36,10 +36,12 @@ type oracle struct {
 	// closer is used to stop watermarks.
 	closer *utils.Closer
 
-	// zeroReaders counts active transactions whose read timestamp is 0 (begun on a fresh DB
-	// before the first commit). WaterMark cannot track index 0, so readMark does not protect
-	// them; conflict history is not pruned while one of them is active.
-	zeroReaders int64
+	// activeReads counts the transactions in flight per read timestamp. WaterMark cannot
+	// protect a reader that begins at an index its DoneUntil has already reached (an earlier
+	// transaction with the same read timestamp has finished) nor index 0, so the pruning of
+	// the conflict history is additionally bounded by the oldest active read timestamp.
+	activeMu    sync.Mutex
+	activeReads map[uint64]int
 
 	txnStarted   uint64
 	txnCommitted uint64
@@ -68,6 +70,7 @@ func newOracle(opt Options) *oracle {
 	orc := &oracle{
 		detectConflicts: opt.DetectConflicts,
 		intentTable:     make(map[uint64]uint64),
+		activeReads:     make(map[uint64]int),
 		// We're not initializing nextTxnTs and readOnlyTs. It would be done after replay in Open.
 		//
 		// WaterMarks must be 64-bit aligned for atomic package, hence we must use pointers here.
@@ -139,9 +142,9 @@ func (o *oracle) readTs() uint64 {
 		readTs = last
 	}
 	utils.VerifYield("txn.read.last", readTs)
-	if readTs == 0 {
-		atomic.AddInt64(&o.zeroReaders, 1)
-	}
+	o.activeMu.Lock()
+	o.activeReads[readTs]++
+	o.activeMu.Unlock()
 	o.readMark.Begin(readTs)
 	utils.VerifYield("txn.read.begun", readTs)
 
@@ -229,9 +232,13 @@ func (o *oracle) newCommitTs(txn *Txn) (uint64, bool) {
 func (o *oracle) doneRead(txn *Txn) {
 	if !txn.doneRead {
 		txn.doneRead = true
-		if txn.readTs == 0 {
-			atomic.AddInt64(&o.zeroReaders, -1)
+		o.activeMu.Lock()
+		if n := o.activeReads[txn.readTs]; n <= 1 {
+			delete(o.activeReads, txn.readTs)
+		} else {
+			o.activeReads[txn.readTs] = n - 1
 		}
+		o.activeMu.Unlock()
 		o.readMark.Done(txn.readTs)
 	}
 }
@@ -242,17 +249,19 @@ func (o *oracle) cleanupCommittedTransactions() { // Must be called under o.Lock
 		// committedTxns and so there's nothing to clean up.
 		return
 	}
-	if atomic.LoadInt64(&o.zeroReaders) > 0 {
-		return
-	}
 	// Same logic as discardAtOrBelow but unlocked
 	maxReadTs := o.readMark.DoneUntil()
-
-	utils.AssertTrue(maxReadTs >= o.lastCleanupTs)
+	o.activeMu.Lock()
+	for ts := range o.activeReads {
+		if ts < maxReadTs {
+			maxReadTs = ts
+		}
+	}
+	o.activeMu.Unlock()
 
 	// do not run clean up if the maxReadTs (read timestamp of the
 	// oldest transaction that is still in flight) has not increased
-	if maxReadTs == o.lastCleanupTs {
+	if maxReadTs <= o.lastCleanupTs {
 		return
 	}
 	o.lastCleanupTs = maxReadTs
